@@ -120,6 +120,7 @@ type ptResult struct {
 	Signaled bool     `json:"signaled"`
 	Fired    bool     `json:"fired"`
 	Error    string   `json:"error"`
+	Foreign  []string `json:"foreign"` // attempted removals / renames of absolute paths outside the directory (blocked by the tracer)
 }
 
 type c10Env struct {
@@ -238,6 +239,11 @@ func (e *c10Env) inspect(dir string, r *ptResult, stdout []byte, killed bool, wh
 		out, outExists = files[e.targetName]
 	}
 	outComplete := outExists && e.completeOutput(out) && e.targetName != e.c.Name
+	// gxz may remove its own temporary file and, after success, the input -
+	// nothing else, and certainly nothing outside the directory it works in
+	if len(r.Foreign) > 0 {
+		return ev.Fail(fmt.Sprintf("%s: gxz tried to remove or rename a path that is neither its temporary file nor its input: %v (blocked by the tracer)", desc, r.Foreign), sig("inv", "foreign_path_removed", "path", strings.Fields(r.Foreign[0])[1])...)
+	}
 	// bystander
 	if !bytes.Equal(files[bystander], bystanderData) {
 		return ev.Fail(desc+": the bystander file was touched", sig("inv", "bystander")...)
@@ -468,6 +474,37 @@ func checkC10(c caseC10, rec *ev.Rec) *ev.Failure {
 		}
 		rec.Class("kill@" + cl.Name + ":" + phase)
 	}
+	// every mutating system call as the point where SIGINT (Ctrl-C) arrives:
+	// gxz's handler removes the temporary file and exits; the main goroutine
+	// keeps running until then, so the outcome may vary between runs - the
+	// invariants must hold in every one
+	for _, cl := range base.Calls {
+		if !cl.Mut || !keep[cl.K] {
+			continue
+		}
+		if err := e.populate(dir); err != nil {
+			rec.Incomplete("populate: " + err.Error())
+			return nil
+		}
+		r, so, err := e.run(dir, "signal", cl.K, 0)
+		if err != nil {
+			rec.Incomplete("ptrun: " + err.Error())
+			return nil
+		}
+		rec.Eval(1)
+		if !r.Fired {
+			continue
+		}
+		// a run that still exits 0 completed before the handler ran: full
+		// success invariants; otherwise the invariants of an interrupted run
+		if f := e.inspect(dir, r, so, r.Exit != 0, fmt.Sprintf("SIGINT sent before system call #%d %s(%s%s)", cl.K, cl.Name, cl.Path, cl.Path2)); f != nil {
+			return f
+		}
+		if tmpCreated >= 0 && cl.K >= tmpCreated {
+			rec.NonTrivial(ev.Hash64(caseHash(c), "sigint", cl.K))
+		}
+		rec.Class(fmt.Sprintf("sigint@%s:exit=%d", cl.Name, r.Exit))
+	}
 	// every listed system call as a fault point
 	for _, cl := range base.Calls {
 		if !keep[cl.K] {
@@ -527,7 +564,7 @@ func checkC10(c caseC10, rec *ev.Rec) *ev.Failure {
 
 func TestC10(t *testing.T) {
 	rec := ev.New("C10", "fault_enumeration")
-	rec.Rule = "rapid draws a gxz scenario ({compress, decompress} x {xz, lzma} x subsets of {-k,-f,-c} x names with known / tar / unknown suffix x {valid, bit-flipped, truncated} input x target absent / present x a user file under the temporary name present / absent x content incl. > 64 KiB, plus a bystander file); the unmodified binary built from the tree runs under a ptrace tracer that numbers every system call touching the directory; per scenario: one undisturbed run, EVERY mutating call as a kill point (killed before it executes) and EVERY listed call as a fault point (scenarios with more than 160 calls: the first and last 40 and 40 evenly spaced ones) (ENOSPC/EIO/EACCES/EXDEV as fits), each on a fresh copy; oracle on the directory afterwards: input intact or complete output under a different final name; target name never holds a partial file; pre-existing target kept without -f; bystander and a user file under the temporary name untouched; not killed: no temporary file, exit != 0 => input intact, exit 0 => complete output (file or stdout) and input removed iff neither -k nor -c; corrupt / truncated / unknown-suffix / existing-target scenarios must fail; evaluations = traced runs; non-trivial = kill / fault at or after creation of the temporary file; distinct = hash(scenario, point)"
+	rec.Rule = "rapid draws a gxz scenario ({compress, decompress} x {xz, lzma} x subsets of {-k,-f,-c} x names with known / tar / unknown suffix x {valid, bit-flipped, truncated} input x target absent / present x a user file under the temporary name present / absent x content incl. > 64 KiB, plus a bystander file); the unmodified binary built from the tree runs under a ptrace tracer that numbers every system call touching the directory; per scenario: one undisturbed run, EVERY mutating call as a kill point (killed before it executes) and EVERY listed call as a fault point (scenarios with more than 160 calls: the first and last 40 and 40 evenly spaced ones) (ENOSPC/EIO/EACCES/EXDEV as fits), EVERY mutating call as the arrival point of SIGINT (handled by gxz: temporary file removed, exit 7), each on a fresh copy; the tracer blocks and reports any removal / rename of a path outside the directory; oracle on the directory afterwards: gxz removed nothing but its temporary file and (after success) the input; input intact or complete output under a different final name; target name never holds a partial file; pre-existing target kept without -f; bystander and a user file under the temporary name untouched; not killed: no temporary file, exit != 0 => input intact, exit 0 => complete output (file or stdout) and input removed iff neither -k nor -c; corrupt / truncated / unknown-suffix / existing-target scenarios must fail; evaluations = traced runs; non-trivial = kill / fault at or after creation of the temporary file; distinct = hash(scenario, point)"
 	rec.Assumptions = []string{"a single system call is atomic; a kill inside a write equals a kill after a shorter write to the temporary file", "process kill, not power loss (gxz does not fsync)", "if ptrace is not permitted the check is inconclusive"}
 	drive(t, rec, drawC10, checkC10)
 }
